@@ -3,7 +3,7 @@
    nat / N / Z / positive stay the extracted inductives.  No Extract Constant. *)
 From Coq Require Import Extraction ExtrOcamlBasic ZArith NArith List.
 From Selfies Require Import Base Generated Lex Atoms Grammar Compat Decoder.
-From Selfies Require Import PySet Matching Smiles Kekulize Encoder.
+From Selfies Require Import PySet Matching Smiles Kekulize Encoder Config History.
 From Selfies Require Import IndexSpec WfSpec EncUtils Reader DocGrammar.
 Extraction Language OCaml.
 Set Extraction AccessOpaque.
@@ -14,7 +14,7 @@ Extraction "model.ml"
   get_index_from_selfies get_selfies_from_index index_digit
   process_atom_symbol smiles_to_atom atom_to_smiles modernize_symbol
   next_atom_state next_branch_state next_ring_state
-  decoder decode_graph
+  decoder decode_graph run init_world compute_alphabet valid_key
   encoder parse_kekulize tokenize_smiles smiles_to_mol kekulize pruned_ds
   find_perfect_matching greedy_matching greedy_unmatched
   ps_empty ps_run ps_of_list ps_pop ps_discard ps_add ps_keys
